@@ -60,6 +60,9 @@ def twin_pool():
     out += [hdr.IPv6EndpointOption(ipaddress.IPv6Address("::ffff:192.0.2.9"), hdr.L4Protocols.UDP, 30509),
             hdr.IPv6MulticastOption(ipaddress.IPv6Address("::"), hdr.L4Protocols.UDP, 30509),
             hdr.IPv4EndpointOption(ipaddress.IPv4Address("0.0.0.0"), hdr.L4Protocols.UDP, 30509)]
+    # configuration options with the same items in another order / another multiplicity: different options
+    out += [hdr.SOMEIPSDConfigOption(configs=(("a", "1"), ("b", None))), hdr.SOMEIPSDConfigOption(configs=(("b", None), ("a", "1"))),
+            hdr.SOMEIPSDConfigOption(configs=(("x", None),)), hdr.SOMEIPSDConfigOption(configs=(("x", None), ("x", None)))]
     return out
 
 
